@@ -50,6 +50,44 @@ BIGLEN = 140000
 MAX_REPORT = 6          # replay files written per run, at most 2 per kind of clause (the evidence counts all failing cases)
 
 
+# ---------------------------------------------------------------- output volume and chunking: write plans
+_PAT = {}
+
+
+def pat(n, salt):
+    """first n bytes of a stream's pattern (harness/helperchild pat): position dependent, '\n' at every 1000th position"""
+    key = (n, salt)
+    if key not in _PAT:
+        _PAT[key] = bytes(10 if i % 1000 == 999 else 33 + (i * 131 + (i >> 8) * 17 + salt) % 94 for i in range(n)).decode("latin-1")
+    return _PAT[key]
+
+
+def plan_streams(plan):
+    """what a helper child given this write plan writes to (stdout, stderr)"""
+    tot = {"o": 0, "e": 0}
+    for step in plan.split(";"):
+        f = step.split(",")
+        if len(f) == 3:
+            tot[f[0]] += int(f[1])
+    return pat(tot["o"], 0), pat(tot["e"], 5)
+
+
+def volume_plans():
+    P = []
+    for n in (0, 1, 4095, 4096, 8191, 8192, 8193, 65536, 65537, 262144, 1048576):
+        P.append("o,%d,%d" % (n, n))                                          # stdout in one write
+    for n in (8192, 8193, 9000, 32769, 65537, 262144, 1048576):
+        P.append("e,%d,%d;e,10,10;o,5,5;e,20,1" % (n, n))                     # a large stderr write, then further writes
+    P += ["o,5000,1;e,5000,7", "o,20000,3", "e,12000,1", "e,9000,4500;o,3,1"]   # many small writes
+    P.append(";".join("o,300,100;e,300,50" for _ in range(10)))               # interleaved
+    P.append("o,100000,100000;e,100000,100000;o,10,10;e,10,10;o,70000,4096;e,70000,8192")
+    P.append("e,1000,1000;o,1000,1000")                                       # both end in a newline
+    return P
+
+
+COQ_PLAN_LIMIT = 8200        # cases whose payloads are larger are judged by the oracle only (the Coq case file would be too large)
+
+
 # ---------------------------------------------------------------- generation
 def gen_arg(rng):
     n = rng.choice([1, 1, 1, 2, 2, 3])
@@ -118,6 +156,7 @@ def gen_case(rng, exit_code=None, fn=None, good_cmd=False, signals=(9,)):
     c["via_map"] = bool(fn in WITH_ENV and env is not None and rng.random() < 0.12)
     c["inherit"] = inherit
     c["env"] = env
+    c["streams"] = "pipe" if rng.random() < 0.3 else "file"      # what the caller's os.Stdin/Stdout/Stderr are reassigned to for the call
     return c
 
 
@@ -170,7 +209,10 @@ class World:
         except OSError as ex:
             self.txtbsy_effective = (ex.errno == errno.ETXTBSY)
         self.unitrun = go_build_harness(ctx, "unitrun")
-        self.base_env = {"PATH": "/usr/bin:/bin"}
+        # unitrun moves its request/answer protocol off descriptors 0 and 1 and points those at guard files (op_sh.go init)
+        with open(os.path.join(ctx.tmp, "guard-stdin"), "w") as f:
+            f.write("this is NOT the caller's stdin\n")
+        self.base_env = {"PATH": "/usr/bin:/bin", "C15_FDGUARD": ctx.tmp}
 
     def subst(self, s):
         return s.replace("@BINDIR@", self.bindir).replace("@BIN@", self.bin).replace("@NOEXEC@", self.noexec).replace("@BADFMT@", self.badfmt).replace("@BADINTERP@", self.badinterp).replace("@TXTBSY@", self.txtbsy)
@@ -192,8 +234,11 @@ def make_request(w, c, workdir, idx):
     envm = None
     if c["env"] is not None:
         envm = [[k, w.subst(v)] for k, v in c["env"]]
-    setenv["C15X_OUT"] = HX(c["out"])
-    setenv["C15X_ERR"] = HX(c["err"])
+    if c.get("plan"):
+        setenv["C15X_PLAN"] = c["plan"]
+    else:
+        setenv["C15X_OUT"] = HX(c["out"])
+        setenv["C15X_ERR"] = HX(c["err"])
     setenv["C15X_DUMP"] = dump
     if c["sig"]:
         setenv["C15X_SIG"] = str(c["sig"])
@@ -217,7 +262,7 @@ def make_request(w, c, workdir, idx):
     uses = c["fn"] in WITH_ENV
     raw = {"fn": c["fn"], "cmd": HX(w.subst(c["cmd"])), "args": [HX("x" * BIGLEN if a == BIGARG else a) for a in c["args"]],
            "setenv": {HX(k): HX(v) for k, v in setenv.items()}, "unset": [], "stdin": HX(c["stdin"]),
-           "so": c["so"], "se": c["se"], "dump": dump, "tmp": workdir, "wait": wait}
+           "so": c["so"], "se": c["se"], "dump": dump, "tmp": workdir, "wait": wait, "streams": c.get("streams") or "file"}
     if uses and envm is not None:
         raw["env"] = {HX(k): HX(v) for k, v in envm}
     return {"op": "sh", "raw": raw}, setenv, (envm if uses else None)
@@ -281,6 +326,19 @@ def trim_one(b):
     return b[:-1] if b.endswith("\n") else b
 
 
+def wrote(d):
+    """(stdout, stderr) the child reports having written: everything written to the stream, late writes of a descendant included"""
+    if d.get("plan"):
+        return plan_streams(d["plan"])
+    return unhex(d["out"]) + unhex(d.get("late_out") or ""), unhex(d["err"]) + unhex(d.get("late_err") or "")
+
+
+def intended(c):
+    if c.get("plan"):
+        return plan_streams(c["plan"])
+    return c["out"] + c.get("late_out", ""), c["err"] + c.get("late_err", "")
+
+
 def oracle(w, c, a, setenv, envm):
     """returns a list of violated clauses"""
     bad = []
@@ -292,8 +350,7 @@ def oracle(w, c, a, setenv, envm):
     started = d is not None
     exited = started and d["sig"] == 0
     k = d["exit"] if exited else None
-    out = unhex(d["out"]) + unhex(d.get("late_out") or "") if started else ""       # everything written to the stream, the
-    errp = unhex(d["err"]) + unhex(d.get("late_err") or "") if started else ""      # late writes of a descendant included
+    out, errp = wrote(d) if started else ("", "")
     # Exec given a writer whose Write fails: the stream could not be delivered
     nso, nse = (wfail_n(c["so"]), wfail_n(c["se"])) if fn == "Exec" else (None, None)
     copy_failed = (nso is not None and len(out) > nso) or (nse is not None and len(errp) > nse)
@@ -405,6 +462,8 @@ WSE = {"nil": "WNil", "buf": "WBuf", "os": "WOsStderr"}
 
 
 def cs(s):
+    if len(s) > 1500:        # one long literal is a deeply nested term (coqc: stack overflow): spell it in pieces
+        return '(String.concat "" [%s])' % "; ".join(cs(s[i:i + 1500]) for i in range(0, len(s), 1500))
     b = B(s)
     if all(32 <= c < 127 for c in b):
         return coq_str(b)
@@ -447,11 +506,11 @@ def case_term(w, c, a, envm):
     else:
         ent = "(XE (FExec %s %s))" % (WSO[c["so"]], WSE[c["se"]]) if fn == "Exec" else "(XE F%s)" % fn
     if d is not None:
-        child = child_term(d["exit"], d["sig"], unhex(d["out"]) + unhex(d.get("late_out") or ""), unhex(d["err"]) + unhex(d.get("late_err") or ""))
+        child = child_term(d["exit"], d["sig"], *wrote(d))
         started = "(Some (%s, %s))" % (coq_list([cs(unhex(x)) for x in d["argv"]]), coq_list([cs(unhex(x)) for x in d["env"] if not unhex(x).startswith(LONG_DIRECTIVES)]))
         stdin_ok = d["stdin_sha"] == hashlib.sha256(B(c["stdin"])).hexdigest()
     else:
-        child = child_term(c["exit"], c["sig"], c["out"] + c.get("late_out", ""), c["err"] + c.get("late_err", ""))      # what it would have done
+        child = child_term(c["exit"], c["sig"], *intended(c))      # what it would have done
         started = "None"
         stdin_ok = True
     obs = ("{| o_ran := %s; o_err := %s; o_mg := %s; o_sh := %s; o_cmdran := %s; o_text := %s; o_started := %s; o_stdin_ok := %s; "
@@ -537,6 +596,7 @@ def run(ctx):
             for fn, so, se in fns:
                 c = gen_case(rng, exit_code=k, fn=fn, good_cmd=True)
                 c["sig"], c["so"], c["se"], c["bg"] = 0, so, se, 1200
+                c["streams"] = "file"
                 c["late_out"] = "late line\n" if which == "out" else ""
                 c["late_err"] = "late err\n" if which == "err" else ""
                 c["out"] = rng.choice(["first\n", "", "no newline"])
@@ -557,6 +617,18 @@ def run(ctx):
             c["out"] = rng.choice(["some output\n", "x", "", "a\n\nb\n", "\x00\xff\x01bin\x00\n"])
             c["err"] = rng.choice(["warning: something\n", "", "e"])
             cases.append(c)
+    # output volume and chunking: 0 B .. 1 MiB in one write / many small writes / interleaved / followed by further
+    # writes, every exit-code class, entry points in rotation (thorough: every plan through every entry point)
+    plans = volume_plans()
+    for pi, plan in enumerate(plans):
+        for fi in (range(7) if not ctx.quick else ((pi % 7), (pi + 3) % 7)):
+            c = gen_case(rng, exit_code=[0, 3, 255, 0, 1][(pi + fi) % 5], fn=FNS[fi], good_cmd=True)
+            c["sig"], c["plan"], c["args"] = 0, plan, c["args"][:2]
+            if c["fn"] == "Exec":
+                c["so"], c["se"] = [("buf", "buf"), ("os", "os"), ("buf", "nil")][pi % 3]
+            if ("1048576" in plan or "262144" in plan):
+                c["streams"] = "file" if pi % 2 else "pipe"
+            cases.append(c)
     nrand = 300 if ctx.quick else 9000
     for _ in range(nrand):
         cases.append(gen_case(rng, signals=signals))
@@ -573,7 +645,7 @@ def run(ctx):
     codes_seen = set()
     shapes = {}
     cov_bg = [0]
-    n_args = n_args_decided = n_bad = 0
+    n_args = n_args_decided = n_bad = n_oracle_only = 0
     reported = {}
 
     def report(cl):
@@ -595,8 +667,11 @@ def run(ctx):
             n_bad += 1
             if report(cl):
                 ctx.violation({"kind": "oracle", "clause": cl}, case=c)
-        items.append(case_term(w, c, a, envm))
-        idx_call.append(i)
+        if c.get("plan") and sum(len(x) for x in plan_streams(c["plan"])) > COQ_PLAN_LIMIT:
+            n_oracle_only += 1          # too large for a Coq case file: judged by the oracle alone
+        else:
+            items.append(case_term(w, c, a, envm))
+            idx_call.append(i)
         d = a["dump"]
         byfn[c["fn"]] = byfn.get(c["fn"], 0) + 1
         if c.get("bg"):
@@ -660,6 +735,9 @@ def run(ctx):
     cov["by_function"] = byfn
     cov["outcomes"] = outcome
     cov["calls_with_late_writing_descendant"] = cov_bg[0]
+    cov["calls_with_write_plan"] = sum(1 for c in cases if c.get("plan"))
+    cov["calls_judged_by_oracle_only_too_large_for_coq"] = n_oracle_only
+    cov["calls_with_streams_reassigned_to_pipes"] = sum(1 for c in cases if c.get("streams") == "pipe")
     cov["signals_usable_here"] = signals
     cov["calls_exec_with_failing_writer"] = sum(1 for c in cases if not c.get("raw") and c["fn"] == "Exec" and (wfail_n(c["so"]) is not None or wfail_n(c["se"]) is not None))
     cov["not_startable_shapes_observed_not_started"] = shapes
